@@ -222,6 +222,7 @@ def main(tier):
                                            "asn1c_out": m.get("asn1c_out", "")[-1200:], "build_log": m.get("build_log", "")[-1200:]})
             continue
         cs = bm.get(m["name"], [])
+        tm = time.time()
         # (a) the round trip on the C, all five syntaxes
         lines = ["rt %s der %s" % (c["tn"], c["der"]) for c in cs]
         out = run_mod(run, m, lines, "C01-rt")
@@ -292,6 +293,8 @@ def main(tier):
                                                    "type": c["tn"], "value": c["vs"], "command_line": l, "c": o, "expected": "OK " + c["der"]})
         if cs:
             run.sample({"type": cs[0]["ts"], "value": cs[0]["vs"][:80], "rt": "rt %s der %s" % (cs[0]["tn"], cs[0]["der"][:60])})
+        if m.get("c01_width"):
+            TIMES["width_run_s"] = round(TIMES.get("width_run_s", 0) + time.time() - tm, 1)
     c01_width.check_oer(run, wbmods, wbcases, run_mod)
     # ------------------------------------------------------------ wide layer
     t0 = time.time()
